@@ -164,9 +164,16 @@ def run_matrix_case(case, ctx):
         return c16.run_case(case, ctx)
     rnd = random.Random(case['cseed'])
     opened16 = open_risks('C16')
-    for attempt in range(300):
-        plan_, risk = c16.gen_pop_case(rnd, 'conn_delay', opened16)
+    # half of the cases: an undelayed and a delayed connection leave the SAME source variable (the undelayed one must keep reading the
+    # current value)
+    want_shared = rnd.random() < 0.5
+    for attempt in range(600):
+        plan_, risk = c16.gen_pop_case(rnd, 'conn_mixed_delay_same_source' if want_shared else 'conn_delay', opened16)
         dl = [c for c in plan_['conns'] if c.get('delay')]
+        shared = any(tuple(c1['source']) == tuple(c2['source']) and c1.get('delay') and not c2.get('delay')
+                     for c1 in plan_['conns'] for c2 in plan_['conns'])
+        if want_shared and not shared and attempt < 500:
+            continue
         if dl and not plan_.get('dde_approx') and not any(c.get('spread') or c['kind'] == 'coupling' for c in plan_['conns']):
             break
     else:
@@ -176,6 +183,8 @@ def run_matrix_case(case, ctx):
     res['case_extra'] = {'case_risk': []}
     m = res.setdefault('mech', {})
     m['matrix_delayed_edges'] = len(dl)
+    if shared:
+        m['undelayed_and_delayed_connection_share_source'] = 1
     m['matrix_delays_off_grid'] = sum(1 for c in dl if c.get('off_grid'))
     m['delayed_edges'] = m.get('delayed_edges', 0) + len(dl)
     res['features'] = list(res.get('features', [])) + ['matrix_delay']
